@@ -198,6 +198,9 @@ def run(tier, seed):
     add("the only spotlight fails while the prompter still announces mood changes",
         e2e_play(scene_x="quick", spot="exit 1").replace("  scene z entails for a: quick", "  scene z entails for a: quick\n  scene z mood starts blue\n  scene x mood starts red"),
         10, 2, expect_fail=True, body_err=True, points="conduct.stage1=sleep:1s")
+    # the shell of an interrupted command dies at once on SIGHUP but a child in its process group ignores it
+    add("spotlight whose child ignores SIGHUP (the shell itself does not)", e2e_play(scene_x="quick", spot="(trap '' HUP; exec sleep 100) & echo started; wait"), 10, 2)
+    add("interrupted action whose child ignores SIGHUP", e2e_play(scene_x="hupkid", extra_actions="  :hupkid (trap '' HUP; exec sleep 100) & wait", second_line="bad"), 10, 2, expect_fail=True, body_err=True)
     for _ in range(3 if tier == "quick" else 12):
         add("spotlight ignoring SIGHUP", e2e_play(scene_x="quick", spot="trap '' HUP; sleep 100"), 8, 2, expect_fail=None)
     add("spotlight with children", e2e_play(scene_x="quick", spot="sleep 100 & sleep 100 & wait"), 8, 2)
@@ -262,7 +265,11 @@ def run(tier, seed):
         f["play"].cleanup()
     rep.sample({"fault": faults[0]["name"], "wall_s": round(results[0]["wall"], 2), "rc": results[0]["rc"]})
     rep.obligation("K-C07a: real runActorCommandWithConsumer vs runner model on %d scripted commands (time class)" % len(scen), "K", not kdis, json.dumps(kdis[:3])[:1500])
-    rep.obligation("O-C07: asked-to-stop commands are interrupted; %d fault plays terminate in time, clean up as prescribed, leave no marked process" % len(faults), "O", not ofail, json.dumps(ofail[:3])[:1800])
+    unknown_ofail = [f for f in ofail if rep.match_known(f["tag"]) is None]
+    known_hit = sorted({f["tag"].get("fault", "") for f in ofail if rep.match_known(f["tag"]) is not None})
+    rep.obligation("O-C07: asked-to-stop commands are interrupted; %d fault plays terminate in time, clean up as prescribed, leave no marked process%s"
+                   % (len(faults), "; the fault plays of the known finding(s) excepted (they fail as recorded: %s)" % ", ".join(known_hit) if known_hit else ""),
+                   "O", not unknown_ofail, json.dumps(unknown_ofail[:3])[:1800])
     if ofail:
         seen = set()
         for f in ofail:
